@@ -344,12 +344,22 @@ def match_wildcard(name: Optional[str], wildcard: str) -> bool:
         return name == wildcard[3:]
 
 
+JSON_ESCAPE_PATTERN = re.compile(r'\\(?:u[0-9a-fA-F]{4}|["\\/bfnrt])')
+
+
 def escape_json_string(s: str, escaped: bool = False) -> str:
     if escaped:
-        s = s.replace('\\"', '"')
-    else:
-        s = s.replace('\\', '\\\\')
+        # The escape sequences of the string are kept, the other characters are escaped
+        chunks = []
+        pos = 0
+        for match in JSON_ESCAPE_PATTERN.finditer(s):
+            chunks.append(escape_json_string(s[pos:match.start()]))
+            chunks.append(match.group(0))
+            pos = match.end()
+        chunks.append(escape_json_string(s[pos:]))
+        return ''.join(chunks)
 
+    s = s.replace('\\', '\\\\')
     s = s.replace('\"', '\\"').\
         replace('\b', r'\b').\
         replace('\r', r'\r').\
